@@ -1524,17 +1524,42 @@ TOUCH_PROJECT = {
 }
 
 
-def _witness_graph(ctx, WITNESS_PROJECT=None):
+# redundant "shortcut" edges (Map needs the genome AND the index built from it), with the shared dependency sorting first in one triangle and last in the other
+TOUCH_PROJECT2 = {
+    "Genome": ([], ["/p/genome.fa"], set(), False),
+    "Index": (["Genome"], ["/p/genome.idx"], set(), False),
+    "Map": (["Genome", "Index"], ["/p/map.bam"], set(), False),
+    "Stats": (["Map"], ["/p/stats.txt"], set(), True),
+    "Zed": ([], ["/p/z"], set(), False),
+    "Mid": (["Zed"], ["/p/mid"], set(), False),
+    "Top": (["Mid", "Zed"], ["/p/top"], set(), True),
+}
+
+
+class OSet(set):
+    """A set that iterates in a chosen order (real sets of targets iterate in address order, i.e. arbitrarily: the witnesses fix it, and try it both ways)."""
+
+    def __init__(self, items=()):
+        items = list(items)
+        super().__init__(items)
+        self._order = items
+
+    def __iter__(self):
+        return iter([x for x in self._order if set.__contains__(self, x)])
+
+
+def _witness_graph(ctx, WITNESS_PROJECT=None, reverse=False):
     WITNESS_PROJECT = WITNESS_PROJECT or globals()["WITNESS_PROJECT"]
     T = {n: target_obj(ctx, name=n) for n in WITNESS_PROJECT}
     graph = GraphTok(T[n] for n in WITNESS_PROJECT)
-    deps = {T[n]: {T[d] for d in v[0]} for n, v in WITNESS_PROJECT.items()}
-    dependents = {T[n]: {T[m] for m, v in WITNESS_PROJECT.items() if n in v[0]} for n in WITNESS_PROJECT}
+    rv = (lambda xs: list(reversed(list(xs)))) if reverse else list
+    deps = {T[n]: OSet(rv(T[d] for d in v[0])) for n, v in WITNESS_PROJECT.items()}
+    dependents = {T[n]: OSet(rv(T[m] for m, v in WITNESS_PROJECT.items() if n in v[0])) for n in WITNESS_PROJECT}
     hooks = {
         "attr:flattened_outputs": lambda recv: list(WITNESS_PROJECT[recv.name][1]),
         "attr:flattened_inputs": lambda recv: [],
         "attr:protected": lambda recv: set(WITNESS_PROJECT[recv.name][2]),
-        "attr:endpoints": lambda recv: {T[n] for n, v in WITNESS_PROJECT.items() if v[3]},
+        "attr:endpoints": lambda recv: OSet(rv(T[n] for n, v in WITNESS_PROJECT.items() if v[3])),
         "getattr:dependencies": lambda o: deps, "getattr:dependents": lambda o: dependents,
         "getattr:targets": lambda o: {n: T[n] for n in WITNESS_PROJECT},
         "gwf.workflow.Workflow.from_context": lambda c: Obj("workflow", targets={n: T[n] for n in WITNESS_PROJECT}),
@@ -1639,9 +1664,9 @@ def clean_command_witness(ctx):
     return n, diffs, None
 
 
-def eval_touch_command(ctx, targets=()):
+def eval_touch_command(ctx, targets=(), project=None, reverse=False):
     fn = ctx.index.func("gwf.plugins.touch:touch")
-    T, graph, hooks = _witness_graph(ctx, TOUCH_PROJECT)
+    T, graph, hooks = _witness_graph(ctx, project or TOUCH_PROJECT, reverse)
     events = []
     store = Obj("spec_hashes")
     hooks.update({
@@ -1670,12 +1695,15 @@ def eval_touch_command(ctx, targets=()):
 
 
 def touch_command_witness(ctx):
-    WITNESS_PROJECT = TOUCH_PROJECT
-    rows = [("gwf touch", (), {"A", "B", "S", "C", "All", "Other"}), ("gwf touch All", ("All",), {"A", "B", "S", "C", "All"}), ("gwf touch B", ("B",), {"A", "B"}),
-            ("gwf touch A", ("A",), {"A"}), ("gwf touch 'C*' Other", ("C*", "Other"), {"A", "S", "C", "Other"})]
+    rows = [("gwf touch", (), {"A", "B", "S", "C", "All", "Other"}, TOUCH_PROJECT), ("gwf touch All", ("All",), {"A", "B", "S", "C", "All"}, TOUCH_PROJECT),
+            ("gwf touch B", ("B",), {"A", "B"}, TOUCH_PROJECT), ("gwf touch A", ("A",), {"A"}, TOUCH_PROJECT),
+            ("gwf touch 'C*' Other", ("C*", "Other"), {"A", "S", "C", "Other"}, TOUCH_PROJECT),
+            ("gwf touch [project with shortcut edges]", (), set(TOUCH_PROJECT2), TOUCH_PROJECT2), ("gwf touch Stats [shortcut edges]", ("Stats",), {"Genome", "Index", "Map", "Stats"}, TOUCH_PROJECT2),
+            ("gwf touch Top Map [shortcut edges]", ("Top", "Map"), {"Zed", "Mid", "Top", "Genome", "Index", "Map"}, TOUCH_PROJECT2)]
     diffs, n = [], 0
-    for label, targets, cone in rows:
-        out, err = eval_touch_command(ctx, targets)
+    rows = [(lab + (" [sets iterate in reverse]" if rev else ""), tg, cone, proj, rev) for (lab, tg, cone, proj) in rows for rev in (False, True)]
+    for label, targets, cone, WITNESS_PROJECT, rev in rows:
+        out, err = eval_touch_command(ctx, targets, WITNESS_PROJECT, rev)
         if err:
             return n, diffs, err
         n += 1
@@ -2012,7 +2040,7 @@ def _own_coroutines(self, module):
 _TaskInterp._own_coroutines = _own_coroutines
 
 
-def eval_task(ctx, deps=None, rc=0, timeout=False, spawn_fails=False, log_fails=False, cancel_at=None, unknown_dep=False, finished=()):
+def eval_task(ctx, deps=None, rc=0, timeout=False, spawn_fails=False, log_fails=False, cancel_at=None, unknown_dep=False, finished=(), leader_reaped=False):
     """Scheduler.try_handle_task evaluated once. deps: {dep id: final LocalStatus member}. Returns (result dict, error)."""
     LOCAL = "gwf.backends.local"
     idx = ctx.index
@@ -2061,6 +2089,12 @@ def eval_task(ctx, deps=None, rc=0, timeout=False, spawn_fails=False, log_fails=
             raise Raised("PermissionError", str(path))
         return Obj("file", path=str(path), mode=mode)
 
+    def h_lookup(pid):
+        # looking a process up by pid fails once it has been reaped, although other members of its group (the script's children) still run
+        if leader_reaped:
+            raise Raised("ProcessLookupError", f"[Errno 3] No such process: {pid}")
+        return pid
+
     hooks = {
         "asyncio.wait": h_wait,
         "asyncio.gather": lambda *aws, **k: ev.append(("gather", sorted(getattr(a, "dep", "?") for a in aws if not getattr(a, "shielded", False)), dict(k)))
@@ -2077,7 +2111,8 @@ def eval_task(ctx, deps=None, rc=0, timeout=False, spawn_fails=False, log_fails=
         "attr:kill": lambda recv, *a, **k: ev.append(("proc.kill",)), "attr:terminate": lambda recv, *a, **k: ev.append(("proc.terminate",)),
         "attr:send_signal": lambda recv, *a, **k: ev.append(("proc.send_signal", a)),
         "os.killpg": lambda pid, sig: ev.append(("killpg", pid, getattr(sig, "name", str(sig)).rsplit(".", 1)[-1])),
-        "os.getpgid": lambda pid: pid,
+        "os.getpgid": h_lookup, "os.getsid": h_lookup,
+        "os.kill": lambda pid, sig: h_lookup(pid) and ev.append(("kill-leader-only", pid)),
         "builtins.open": h_open,
         "attr:write": lambda recv, data, *a: ev.append(("write", getattr(recv, "path", None), data)),
         "attr:joinpath": lambda recv, *parts: PathTok("/".join([str(recv)] + [str(p_) for p_ in parts])),
@@ -2226,6 +2261,11 @@ def task_coroutine_witness(ctx):
             diffs.append("time limit exceeded: the killed process is never reaped (proc.wait)")
         if not any(e[0] == "wait_for" and e[1] == 5 for e in out["events"]):
             diffs.append("the task's time limit is not applied to the run of its process")
+        # the script's shell has exited and been reaped, its background children hold the pipes open and keep running: the group is still there
+        out = run("time limit exceeded after the shell itself was reaped (its children still run)", timeout=True, leader_reaped=True)
+        if not any(e[0] == "killpg" and "KILL" in str(e[2]) for e in out["events"]):
+            diffs.append("time limit exceeded after the script's shell exited and was reaped while its children still run: the process group is not sent SIGKILL (the group is "
+                         "looked up through the pid of the reaped leader, which fails, and the failure is swallowed): the task is reported killed but its processes keep running")
         # cancellation at every await of the normal path (with and without dependencies)
         for deps in ({}, {1: "COMPLETED"}):
             base, err = eval_task(ctx, deps=deps)
@@ -2675,4 +2715,129 @@ def workflow_map_witness(ctx):
     if not (isinstance(got[0], str) and got[0].startswith("raise WorkflowError")):
         diffs.append(f"Workflow.map with a naming function that names two of three items 'same' gives {got[0]} (registered: {got[2] if len(got) > 2 else '?'}); expected WorkflowError - "
                      "a later target silently replaces the earlier one, so there are fewer targets than items")
+    return n, diffs, None
+
+
+# --------------------------------------------------------------------------- `gwf workers`: what reaches the pool
+def _click_convert(ctx, fn, opt_long, text):
+    """What click hands to the command for `<opt_long> <text>` according to the option's declared type=; ('rejected', why) when click refuses it.
+    Raises Unsupported for parameter types that are not modelled."""
+    idx = ctx.index
+    for d in fn.node.decorator_list:
+        if not (isinstance(d, ast.Call) and idx.canon(d.func, fn.module) == "click.option"):
+            continue
+        names = [a.value for a in d.args if isinstance(a, ast.Constant) and isinstance(a.value, str)]
+        if opt_long not in names:
+            continue
+        typ = next((k.value for k in d.keywords if k.arg == "type"), None)
+        if typ is None:
+            dflt = next((k.value for k in d.keywords if k.arg == "default"), None)
+            if isinstance(dflt, ast.Constant) and isinstance(dflt.value, (int, float)) and not isinstance(dflt.value, bool):
+                typ_name = type(dflt.value).__name__      # click infers the type from the default
+            else:
+                return text
+        else:
+            typ_name = idx.canon(typ.func if isinstance(typ, ast.Call) else typ, fn.module) if isinstance(typ.func if isinstance(typ, ast.Call) else typ, (ast.Name, ast.Attribute)) else None
+            typ_name = (typ_name or "").replace("builtins.", "")
+        lo = hi = None
+        if isinstance(typ, ast.Call):
+            vals = {}
+            for i, a in enumerate(typ.args[:2]):
+                vals[("min", "max")[i]] = a
+            for k in typ.keywords:
+                vals[k.arg] = k.value
+            try:
+                lo = ctx.ev.eval(vals["min"], fn.module) if "min" in vals else None
+                hi = ctx.ev.eval(vals["max"], fn.module) if "max" in vals else None
+            except Exception:
+                raise Unsupported("click range bounds are not constants")
+        if typ_name in ("int", "click.INT", "click.IntRange", "click.types.IntRange"):
+            try:
+                v = int(text)
+            except ValueError:
+                return ("rejected", f"{text!r} is not a valid integer")
+        elif typ_name in ("float", "click.FLOAT", "click.FloatRange", "click.types.FloatRange"):
+            try:
+                v = float(text)
+            except ValueError:
+                return ("rejected", f"{text!r} is not a valid float")
+        elif typ_name in ("str", "click.STRING"):
+            return text
+        else:
+            raise Unsupported(f"click parameter type {typ_name}")
+        if (lo is not None and v < lo) or (hi is not None and v > hi):
+            return ("rejected", f"{v} is not in the range")
+        return v
+    raise Unsupported(f"option {opt_long} not found")
+
+
+def eval_workers_command(ctx, text):
+    """`gwf workers -n <text>` with the pool start replaced by a recorder: the arguments the pool is started with, bound to start_cluster_async's parameters."""
+    idx = ctx.index
+    fn = idx.func("gwf.plugins.workers:workers")
+    sca = idx.func("gwf.backends.local:start_cluster_async")
+    v = _click_convert(ctx, fn, "--num-workers", text)
+    if isinstance(v, tuple) and v and v[0] == "rejected":
+        return {"rejected": v[1]}
+    captured = []
+
+    def rec(*a, **k):
+        captured.append((a, dict(k)))
+
+    hooks = {"gwf.backends.local.start_cluster": rec, "gwf.backends.local.start_cluster_async": rec, "multiprocessing.cpu_count": lambda: 3, "os.cpu_count": lambda: 3,
+             "os.getcwd": lambda: tok("CWD"), "os.path.abspath": lambda p: p if str(p).startswith(("/", "⟦PROJ")) else tok("CWD") + "/" + str(p),
+             "os.path.realpath": lambda p: p if str(p).startswith(("/", "⟦PROJ")) else tok("CWD") + "/" + str(p)}
+    interp = PureInterp(ctx, hooks=hooks)
+    dflt = click_defaults(ctx, fn)
+    names = fn.positional_params()
+    kwargs = {n: dflt.get(n) for n in names[1:]}
+    for cand in ("num_workers", "max_cores", "n", "workers"):
+        if cand in kwargs:
+            kwargs[cand] = v
+            break
+    else:
+        raise Unsupported("the parameter receiving --num-workers was not found")
+    try:
+        interp.call(fn, (Obj("ctx", working_dir=PROJ, config={}, backend="local"),), kwargs)
+    except Raised as exc:
+        return {"raised": f"{exc.kind}: {exc.detail[:60]}"}
+    if len(captured) != 1:
+        return {"starts": len(captured)}
+    a, k = captured[0]
+    bound = dict(zip(sca.positional_params(), a))
+    bound.update(k)
+    return {"given": v, "bound": bound}
+
+
+def workers_command_witness(ctx):
+    diffs, n = [], 0
+    for text in ("1", "2", "7", "2.5", "0.5", "1.0"):
+        try:
+            out = eval_workers_command(ctx, text)
+        except Unsupported as exc:
+            return n, diffs, f"workers command: {exc}"
+        n += 1
+        what = f"`gwf workers -n {text}`"
+        if "rejected" in out:
+            continue        # click refuses the value: no pool is started
+        if "raised" in out:
+            if text in ("1", "2", "7"):
+                diffs.append(f"{what} ends with {out['raised']}")
+            continue
+        if "starts" in out:
+            diffs.append(f"{what} starts the pool {out['starts']} times")
+            continue
+        b = out["bound"]
+        cores = b.get("max_cores", b.get("num_workers"))
+        if isinstance(cores, bool) or not isinstance(cores, (int, float)):
+            diffs.append(f"{what} starts the pool with core count {cores!r}")
+        elif int(cores) != cores:
+            diffs.append(f"{what} starts the pool with {cores!r} cores (3 CPUs): a non-integral count sizes asyncio.Semaphore, whose value then steps over zero "
+                         f"({cores} -> {cores - 1} -> {cores - 2} ...) and never reads as locked: the number of running tasks is unbounded")
+        elif text in ("1", "2", "7") and cores != int(text):
+            diffs.append(f"{what} starts the pool with {cores!r} cores instead of {text}")
+        wd = b.get("working_dir")
+        if wd != PROJ:
+            diffs.append(f"{what} started from another directory serves {str(wd).replace('⟦', '<').replace('⟧', '>')} instead of the project directory the workflow file lives in: the pool "
+                         "writes task logs to (and fails on a missing) .gwf/logs under the wrong directory, so tasks that exited 0 end as failed and `gwf logs` finds nothing")
     return n, diffs, None
